@@ -6,6 +6,7 @@ import (
 	"crypto/rsa"
 	"errors"
 	"fmt"
+	"io"
 
 	"filippo.io/age"
 	"filippo.io/age/agessh"
@@ -33,6 +34,7 @@ type C19Plan struct {
 	Type     string    `json:"type"`  // "ed" | "rsa"
 	Holds    string    `json:"holds"` // "A" (matched) | "B" (PEM holds another key of the same type) | "X" (PEM holds a key of the OTHER type)
 	Rounds16 bool      `json:"rounds16,omitempty"`
+	Twin     bool      `json:"twin,omitempty"` // before the history, ANOTHER identity value built from the same key file bytes (declaring the key the file really holds) unlocks and validates its key once
 	Calls    []C19Call `json:"calls"`
 }
 
@@ -53,12 +55,12 @@ func (C19) Runs(tier string) int {
 func (C19) Meta() core.Meta {
 	return core.Meta{
 		Level:       "exploration",
-		Rule:        "a case = history of 2..6 Decrypt calls on ONE agessh.EncryptedSSHIdentity value (ed25519 in OpenSSH format or RSA in legacy PEM; PEM holding the declared key A, another key B of the same type, or a key of the other type) over reference-written files whose stanza lists address A, B and unrelated keys of the same and of other types in any order, optionally with one crafted stanza (other SSH type carrying A's tag, A's type and tag with a body that does not open, stanzas without arguments); the passphrase callback answers right/wrong/error per plan and counts invocations. Every call's result class (plaintext / no-match / fatal error), plaintext and prompt count must equal the model {validated: bool}. Non-trivial = history contains a prompt; distinct = distinct (type, holds, history skeleton).",
+		Rule:        "a case = history of 2..6 Decrypt calls on ONE agessh.EncryptedSSHIdentity value (in a quarter of the cases after ANOTHER identity value over the same key file bytes has unlocked and validated its key: nothing of that may carry over) (ed25519 in OpenSSH format or RSA in legacy PEM; PEM holding the declared key A, another key B of the same type, or a key of the other type) over reference-written files whose stanza lists address A, B and unrelated keys of the same and of other types in any order, optionally with one crafted stanza (other SSH type carrying A's tag, A's type and tag with a body that does not open, stanzas without arguments); the passphrase callback answers right/wrong/error per plan and counts invocations. Every call's result class (plaintext / no-match / fatal error), plaintext and prompt count must equal the model {validated: bool}. Non-trivial = history contains a prompt; distinct = distinct (type, holds, history skeleton).",
 		Assumptions: []string{"fixture keys generated once with ssh-keygen -a 1 (cheap KDF) and committed; stanzas of the identity's type always carry a tag argument"},
 		Real:        []string{"agessh.EncryptedSSHIdentity", "agessh Ed25519/RSA identities", "x/crypto/ssh key parsing", "filippo.io/age Decrypt"},
 		Stub:        []string{"passphrase callback", "files (reference writer)", "source"},
 		FaultKinds:  []string{"fault.passphrase_wrong", "fault.passphrase_error", "fault.mismatched_private_key"},
-		Probes:      []string{"probe.prompted", "probe.no_prompt_no_match", "probe.validated_then_reused", "probe.after_mismatch_file_to_B", "probe.after_mismatch_same_file", "probe.after_wrong_then_right", "probe.match_not_first_stanza", "probe.same_type_other_tag", "probe.crafted_other_type_same_tag", "probe.crafted_same_tag_bad_body", "probe.crafted_other_tag_bad_args", "probe.key_file_of_other_type"},
+		Probes:      []string{"probe.prompted", "probe.no_prompt_no_match", "probe.validated_then_reused", "probe.after_mismatch_file_to_B", "probe.after_mismatch_same_file", "probe.after_wrong_then_right", "probe.match_not_first_stanza", "probe.same_type_other_tag", "probe.crafted_other_type_same_tag", "probe.crafted_same_tag_bad_body", "probe.crafted_other_tag_bad_args", "probe.key_file_of_other_type", "probe.twin_identity_validated_first"},
 	}
 }
 
@@ -73,6 +75,7 @@ func (C19) Generate(r *core.RNG, tier string, idx uint64) interface{} {
 	if tier == "thorough" && p.Type == "ed" && p.Holds == "A" && r.Chance(1, 50) {
 		p.Rounds16 = true
 	}
+	p.Twin = r.Chance(1, 4)
 	n := r.Range(2, 6)
 	same := "e"
 	if p.Type == "rsa" {
@@ -131,6 +134,11 @@ func (C19) Shrinks(plan interface{}) []interface{} {
 			q.Calls = append(append([]C19Call(nil), p.Calls[:i]...), p.Calls[i+1:]...)
 			out = append(out, &q)
 		}
+	}
+	if p.Twin {
+		q := *p
+		q.Twin = false
+		out = append(out, &q)
 	}
 	for i, cl := range p.Calls {
 		if len(cl.Stanzas) > 1 {
@@ -222,6 +230,52 @@ func (e C19) Execute(plan interface{}, c *core.Ctx) *core.Verdict {
 	if err != nil {
 		return core.Fail("harness", "NewEncryptedSSHIdentity: %v", err)
 	}
+	if p.Twin {
+		// a second identity value over the same key file bytes: what it learns must stay its own
+		heldType, heldName := p.Type, "A"
+		if p.Holds == "B" {
+			heldName = "B"
+		}
+		if p.Holds == "X" {
+			heldName = "B"
+			heldType = "rsa"
+			if p.Type == "rsa" {
+				heldType = "ed"
+			}
+		}
+		hk := c19Load(heldType, false)
+		pubHeld, _, _, _, err := ssh.ParseAuthorizedKey(world.Fixture("c19_" + heldType + heldName + ".pub"))
+		if err != nil {
+			return core.Fail("harness", "twin pub: %v", err)
+		}
+		tp := 0
+		twin, err := agessh.NewEncryptedSSHIdentity(pubHeld, pem, func() ([]byte, error) { tp++; return []byte(pass), nil })
+		if err != nil {
+			return core.Fail("harness", "twin: %v", err)
+		}
+		trng := core.NewRNG(0x7717)
+		tf := &ref.File{FileKey: trng.Bytes(16), Nonce: trng.Bytes(16), Plain: []byte("twin")}
+		if heldType == "ed" {
+			k := hk.edA
+			if heldName == "B" {
+				k = hk.edB
+			}
+			tf.Stanzas = []*ref.Stanza{ref.WrapSSHEd25519(tf.FileKey, trng.Bytes(32), k.Public().(ed25519.PublicKey))}
+		} else {
+			k := hk.rsaA
+			if heldName == "B" {
+				k = hk.rsaB
+			}
+			st, _ := ref.WrapSSHRSA(tf.FileKey, bytes.NewReader(trng.Bytes(2048)), &k.PublicKey)
+			tf.Stanzas = []*ref.Stanza{st}
+		}
+		tr, err := age.Decrypt(bytes.NewReader(tf.Encode()), twin)
+		if err != nil || tp != 1 {
+			return core.Fail("harness", "twin identity could not open its own file: %v (prompts %d)", err, tp)
+		}
+		io.ReadAll(tr)
+		c.Stats.Inc("probe.twin_identity_validated_first")
+	}
 	myType := "ssh-ed25519"
 	if p.Type == "rsa" {
 		myType = "ssh-rsa"
@@ -230,6 +284,9 @@ func (e C19) Execute(plan interface{}, c *core.Ctx) *core.Verdict {
 	sawMismatch, sawWrong := false, false
 	var firstMismatchStanzas string
 	skeleton := p.Type + "/" + p.Holds
+	if p.Twin {
+		skeleton += "/twin"
+	}
 	hasPrompt := false
 	for ci, cl := range p.Calls {
 		rng := core.NewRNG(cl.FSeed)
